@@ -49,6 +49,8 @@ package keeper
 //@ loop 0: invariant forall a Addr, g Int :: bWfMember(Store_bandtss, a, g)
 //@ loop 0: invariant forall j :: 0 <= j && j < #i ==>
 //@             !(bMemberHas(Store_bandtss, idleMembers[j], signing.GroupID) && bMemberAt(Store_bandtss, idleMembers[j], signing.GroupID).IsActive)
+// (an element that is skipped is skipped alone: no break ends the visit of the rest)
+//@ loop 0: exhaustive
 
 // ---- C13 / C18: completion callback ------------------------------------------------------------------
 //@ spec payAll(b BankState, ms []sdk.AccAddress, k Int, fee sdk.Coins) BankState = k <= 0 ? b : bankM2A(payAll(b, ms, k - 1, fee), types.ModuleName, ms[k-1], fee)
